@@ -148,3 +148,10 @@
   (str.++ "^" (str.replace_all (str.replace_all s "." "\u{5c}.") "*" ".*") "$"))
 (define-fun routeMatch ((pat String) (dest String)) Bool
   (and (reValid (globRe pat)) (reMatch (globRe pat) dest)))
+
+;@chunk compact isCompactKey compactOf canonName
+; RFC 3261 section 7.3.3 / 20 compact header forms known to the proxy (lower-cased), as a total involution table
+(define-fun isCompactKey ((k String)) Bool (or (= k "accept-contact") (= k "referred-by") (= k "content-type") (= k "content-encoding") (= k "from") (= k "call-id") (= k "supported") (= k "content-length") (= k "contact") (= k "event") (= k "refer-to") (= k "subject") (= k "to") (= k "allow-events") (= k "via") (= k "a") (= k "b") (= k "c") (= k "e") (= k "f") (= k "i") (= k "k") (= k "l") (= k "m") (= k "o") (= k "r") (= k "s") (= k "t") (= k "u") (= k "v")))
+(define-fun compactOf ((k String)) String (ite (= k "accept-contact") "a" (ite (= k "a") "accept-contact" (ite (= k "referred-by") "b" (ite (= k "b") "referred-by" (ite (= k "content-type") "c" (ite (= k "c") "content-type" (ite (= k "content-encoding") "e" (ite (= k "e") "content-encoding" (ite (= k "from") "f" (ite (= k "f") "from" (ite (= k "call-id") "i" (ite (= k "i") "call-id" (ite (= k "supported") "k" (ite (= k "k") "supported" (ite (= k "content-length") "l" (ite (= k "l") "content-length" (ite (= k "contact") "m" (ite (= k "m") "contact" (ite (= k "event") "o" (ite (= k "o") "event" (ite (= k "refer-to") "r" (ite (= k "r") "refer-to" (ite (= k "subject") "s" (ite (= k "s") "subject" (ite (= k "to") "t" (ite (= k "t") "to" (ite (= k "allow-events") "u" (ite (= k "u") "allow-events" (ite (= k "via") "v" (ite (= k "v") "via" k)))))))))))))))))))))))))))))))
+(define-fun canonName ((n String)) String (ite (= (lower n) "a") "accept-contact" (ite (= (lower n) "b") "referred-by" (ite (= (lower n) "c") "content-type" (ite (= (lower n) "e") "content-encoding" (ite (= (lower n) "f") "from" (ite (= (lower n) "i") "call-id" (ite (= (lower n) "k") "supported" (ite (= (lower n) "l") "content-length" (ite (= (lower n) "m") "contact" (ite (= (lower n) "o") "event" (ite (= (lower n) "r") "refer-to" (ite (= (lower n) "s") "subject" (ite (= (lower n) "t") "to" (ite (= (lower n) "u") "allow-events" (ite (= (lower n) "v") "via" (lower n)))))))))))))))))
+(assert (and (= (lower "Accept-Contact") "accept-contact") (= (lower "Allow-Events") "allow-events") (= (lower "CSeq") "cseq") (= (lower "Call-ID") "call-id") (= (lower "Contact") "contact") (= (lower "Content-Encoding") "content-encoding") (= (lower "Content-Length") "content-length") (= (lower "Content-Type") "content-type") (= (lower "Event") "event") (= (lower "Expires") "expires") (= (lower "From") "from") (= (lower "Max-Forwards") "max-forwards") (= (lower "Record-Route") "record-route") (= (lower "Refer-To") "refer-to") (= (lower "Referred-By") "referred-by") (= (lower "Route") "route") (= (lower "Subject") "subject") (= (lower "Subscription-State") "subscription-state") (= (lower "Supported") "supported") (= (lower "TCP") "tcp") (= (lower "TLS") "tls") (= (lower "To") "to") (= (lower "UDP") "udp") (= (lower "Via") "via") (= (lower "a") "a") (= (lower "accept-contact") "accept-contact") (= (lower "allow-events") "allow-events") (= (lower "b") "b") (= (lower "c") "c") (= (lower "call-id") "call-id") (= (lower "contact") "contact") (= (lower "content-encoding") "content-encoding") (= (lower "content-length") "content-length") (= (lower "content-type") "content-type") (= (lower "cseq") "cseq") (= (lower "e") "e") (= (lower "event") "event") (= (lower "expires") "expires") (= (lower "f") "f") (= (lower "from") "from") (= (lower "i") "i") (= (lower "k") "k") (= (lower "l") "l") (= (lower "m") "m") (= (lower "max-forwards") "max-forwards") (= (lower "o") "o") (= (lower "r") "r") (= (lower "record-route") "record-route") (= (lower "refer-to") "refer-to") (= (lower "referred-by") "referred-by") (= (lower "route") "route") (= (lower "s") "s") (= (lower "subject") "subject") (= (lower "subscription-state") "subscription-state") (= (lower "supported") "supported") (= (lower "t") "t") (= (lower "tcp") "tcp") (= (lower "tls") "tls") (= (lower "to") "to") (= (lower "u") "u") (= (lower "udp") "udp") (= (lower "v") "v") (= (lower "via") "via")))
